@@ -2,451 +2,317 @@
 
 import ast
 
-from ..absint import EMPTY, FALSE, NONE, NONEMPTY, TOP, TRUE, DefaultDomain, Interp, State, exc, val
+from ..absint import NONE, TRUE, State, unbox_deep
 from ..astutil import FUNC_TYPES, attr_chain, dotted, norm, walk_shallow
-from ..cfg import live_nodes, node_calls
 from ..loader import AnalysisError
-from ..symbols import mangle
-from . import runmodel
-from .common import RUNTEST, TESTCASE, TWRUNTEST, cfg_of, module_function, nodes_calling, own_method
-from .runmodel import RERAISE
+from . import casemodel as cm
+from . import streamobjects as so
+from .common import RUNTEST, TESTCASE, TWRUNTEST
 
 EXPLANATION = (
-    "R-STAGE-ORDER: in the abstract run of RunTest (see C01) the order of first occurrences of the "
-    "stages at every normal exit is setUp < test < tearDown < cleanups, and test/tearDown occur iff "
-    "setUp returned normally. R-CLEANUPS-ALWAYS: on the exceptional CFG of _run_core every path from "
-    "the setUp invocation to any exit passes an invocation of _run_cleanups. R-DRAIN-LIFO: both "
-    "implementations of _run_cleanups are drain loops over the live cleanup list that remove the last "
-    "element, invoke the popped triple exactly once with its positional and keyword arguments and have no "
-    "early exit. R-RESET-COMPLETE: every private attribute of TestCase written by code reachable from "
-    "run() is assigned a fresh value in _reset. R-PATCH-PAIR: patch()/useFixture() register their undo "
-    "actions; MonkeyPatcher records the original before setattr and restores last-first with both arms. "
-    "R-CALL-SHAPE: receiver-sensitive class-hierarchy analysis over the whole package -- every "
-    "self.m(...) / super().m(...) call shape is accepted by the method m resolves to for every receiver "
-    "class that can execute the enclosing body."
+    "TestCase.run is followed as written (ttsa.rules.casemodel: the TestCase is constructed through its real __init__; run, "
+    "RunTest, the result adapter, addCleanup / patch / useFixture, testtools.monkey are interpreted by ttsa.objects), with the "
+    "user's setUp / test method / tearDown / cleanups scripted: they register cleanups, patch, use fixtures, return or raise. "
+    "R-STAGE-ORDER: for every combination of stage outcomes the user code called is setUp, then the test method and tearDown "
+    "iff setUp returned, then the cleanups; a setUp / tearDown that does not upcall is an error and does not stop the cleanups. "
+    "R-CLEANUPS-ALWAYS / R-DRAIN-LIFO: with cleanups registered by setUp, the test, tearDown, by a cleanup that runs first and by "
+    "the one that runs last, every one of them is called exactly once, with its arguments, in reverse registration order (a "
+    "cleanup registered while the cleanups run is the next to run), whatever stages and cleanups raise (Exception or "
+    "KeyboardInterrupt), and none is left registered; the same for AsynchronousDeferredRunTest._run_cleanups (model shared "
+    "with C14). R-RESET-COMPLETE: a second run() of the same instance whose user code no longer adds details / cleanups / "
+    "force_failure / patches repeats exactly the history of a fresh instance; the same failing test run twice gives the same "
+    "history twice. R-PATCH-PAIR: attributes changed with patch() (existing and not existing, the same one twice) have their "
+    "value during the rest of the test and their pre-test value / absence after run(), also when stages raise; MonkeyPatcher "
+    "patch(); restore() alone likewise; useFixture sets the fixture up, registers cleanUp in LIFO position, and a failing "
+    "fixture setUp propagates as the test's error without registering cleanUp. R-CALL-SHAPE: receiver-sensitive "
+    "class-hierarchy analysis over the whole package -- every self.m(...) / super().m(...) call shape is accepted by the method "
+    "m resolves to for every receiver class that can execute the enclosing body."
 )
 
 MONKEY = "testtools.monkey"
+A1, K1 = ("sym", "cleanup-argument"), ("sym", "cleanup-keyword-argument")
+CLEANUPS = ("c_setup", "c_test", "c_teardown", "c_nested", "c_late")
 
 
-def check_drain_loop(ctx, func, qual, list_expr, rule="R-DRAIN-LIFO"):
-    """Rule instances for a LIFO drain loop over ``list_expr`` in func."""
-    loops = [n for n in walk_shallow(func, include_self=False) if isinstance(n, ast.While)]
-    cand = []
-    for lp in loops:
-        pops = [c for c in walk_shallow(lp) if isinstance(c, ast.Call) and dotted(c.func) == f"{list_expr}.pop"]
-        if pops:
-            cand.append((lp, pops))
-    if len(cand) != 1:
-        ctx.check(rule, f"{qual}: one drain loop over {list_expr}", func, False,
-                  f"expected exactly one while-loop popping from {list_expr}, found {len(cand)} (iterating a snapshot would miss cleanups registered by cleanups)",
-                  construct=f"{qual}::drain-loop")
-        return None
-    lp, pops = cand[0]
-    live_cond = dotted(lp.test) == list_expr
-    true_try = isinstance(lp.test, ast.Constant) and lp.test.value is True and any(
-        isinstance(t, ast.Try) and any(c in list(walk_shallow(t)) for c in pops) and any("IndexError" in norm(h.type) for h in t.handlers if h.type is not None) for t in lp.body)
-    ctx.check(rule, f"{qual}: loop condition re-reads the live list", lp, live_cond or true_try,
-              f"the loop condition is `{norm(lp.test)}`, not the live {list_expr}: cleanups added by a cleanup would never run / the list is not empty afterwards",
-              construct=f"{qual}::live-condition")
-    p = pops[0]
-    lifo = len(pops) == 1 and (not p.args or (len(p.args) == 1 and isinstance(p.args[0], ast.UnaryOp) and isinstance(p.args[0].op, ast.USub)
-                                               and isinstance(p.args[0].operand, ast.Constant) and p.args[0].operand.value == 1))
-    ctx.check(rule, f"{qual}: removes the last element", p, lifo,
-              f"`{norm(p)}` does not remove the most recently registered cleanup (reverse registration order is lost)", construct=f"{qual}::pop-last")
-    def generator_close(x):
-        # `except GeneratorExit: raise` only lets the generator be closed; it skips nothing
-        h = getattr(x, "_parent", None)
-        return isinstance(x, ast.Raise) and x.exc is None and isinstance(h, ast.ExceptHandler) and h.type is not None and norm(h.type) == "GeneratorExit" and len(h.body) == 1
-
-    jumps = [x for x in walk_shallow(lp) if isinstance(x, (ast.Break, ast.Return, ast.Raise)) and not (true_try and isinstance(x, ast.Break)) and not generator_close(x)]
-    ctx.check(rule, f"{qual}: no early exit from the loop", lp, not jumps,
-              f"the drain loop can be left by `{norm(jumps[0]) if jumps else ''}`: the remaining cleanups would not run", construct=f"{qual}::no-early-exit")
-    return lp, p
+def _w(kind):
+    return "ok" if kind is None else kind
 
 
-def run(ctx):
-    ctx.rule("R-STAGE-ORDER", "setUp first; test and tearDown iff setUp returned normally; cleanups after them")
-    ctx.rule("R-CLEANUPS-ALWAYS", "every path from the setUp invocation to an exit of _run_core runs the cleanups")
-    ctx.rule("R-DRAIN-LIFO", "_run_cleanups drains the live list last-first, invoking each cleanup exactly once, without early exit")
-    ctx.rule("R-RESET-COMPLETE", "every private per-run attribute of TestCase is re-initialised by _reset")
-    ctx.rule("R-PATCH-PAIR", "patch/useFixture register their undo; MonkeyPatcher saves before setattr and restores last-first")
-    ctx.rule("R-CALL-SHAPE", "self/super call shapes are accepted by the resolved callee for every possible receiver class")
-    classes = ctx.classes
-    rt = classes.get(RUNTEST, "RunTest")
-    Q = f"{RUNTEST}:RunTest"
+def _user(r):
+    return [n.split(".", 1)[1] for n in cm.names(r, ("user.",))]
 
-    # ------------------------------------------------------------------ stage order from the abstract run
-    res, interp = runmodel.analyse_run(ctx, rt)
-    seqs = {}
-    for r in res:
-        clean = r.kind == "val" or r.value == RERAISE
-        if not clean:
-            continue
-        seq = r.state.get("ev.stages", None)
-        if seq is None or seq == ():
-            continue  # decorator-skip path runs nothing
-        seqs.setdefault(seq, r)
-    for seq, r in sorted(seqs.items()):
-        def pos(x):
-            return seq.index(x) if x in seq else None
-        problems = []
-        if seq[0] != "setUp":
-            problems.append("setUp is not the first stage")
-        setup_failed = "setUp!" in seq
-        if ("test" in seq) == setup_failed:
-            problems.append("test method runs iff setUp FAILED" if setup_failed else "test method skipped although setUp returned normally")
-        if ("tearDown" in seq) != ("test" in seq):
-            problems.append("tearDown does not run exactly when the test method was invoked")
-        order = [pos(x) for x in ("setUp", "test", "tearDown", "cleanup") if pos(x) is not None]
-        if order != sorted(order):
-            problems.append("stages out of order")
-        ctx.check("R-STAGE-ORDER", f"stage sequence {' '.join(seq)}", own_method(ctx, RUNTEST, "RunTest", "_run_core"), not problems,
-                  "; ".join(problems), path=runmodel.fmt_log(r.state), construct=f"{Q}._run_core::stages {' '.join(seq)}")
-    ctx.floor("R-STAGE-ORDER", 8, "distinct stage sequences")
 
-    # ------------------------------------------------------------------ cleanups / tearDown always (abstract run, all exits)
-    rc = own_method(ctx, RUNTEST, "RunTest", "_run_core")
-    sig = {}
-    for r in res:
-        s_ = r.state
-        seq = s_.get("ev.stages", ()) or ()
-        if not seq:
-            continue
-        framework = r.kind == "exc" and isinstance(r.value, tuple) and r.value and r.value[0] == "framework"
-        sig.setdefault((framework, tuple(seq), s_.get("ev.drained", 0), s_.get("ev.last_stage", None)), r)
-    n_paths = 0
-    for (framework, seq, drained, last_stage), r in sorted(sig.items(), key=repr):
-        n_paths += 1
-        how = "a result method or addOnException handler raised" if framework else "normal exit"
-        # an exception escaping from the setUp stage's own recording ends the run at once (nothing else was started)
-        exempt = framework and last_stage == "setUp" and "test" not in seq
-        ctx.check("R-CLEANUPS-ALWAYS", f"stages {' '.join(seq)} ({how}): the cleanups are drained", rc, bool(drained) or exempt,
-                  f"on a path where the stages {' '.join(seq)} ran ({how}) _run_core is left without draining the cleanups",
-                  path=runmodel.fmt_log(r.state), construct=f"{Q}._run_core::cleanups-always stages={' '.join(seq)} framework={framework}")
-        if "test" in seq or "test!" in seq:
-            ctx.check("R-CLEANUPS-ALWAYS", f"stages {' '.join(seq)} ({how}): tearDown runs once the test method was invoked", rc, "tearDown" in seq or "tearDown!" in seq,
-                      "a path leaves the test-method invocation (normally or by exception) without tearDown",
-                      path=runmodel.fmt_log(r.state), construct=f"{Q}._run_core::teardown-always stages={' '.join(seq)} framework={framework}")
-    ctx.floor("R-CLEANUPS-ALWAYS", 10, "exit signatures")
+def _left(r):
+    v = unbox_deep(r.state.get("self._cleanups", None), r.state)
+    return v
 
-    # ------------------------------------------------------------------ drain loops
-    rcl = own_method(ctx, RUNTEST, "RunTest", "_run_cleanups")
-    ctx.analysed(rcl)
-    aliases = {"self.case._cleanups"} | {n.targets[0].id for n in walk_shallow(rcl, include_self=False)
-                                         if isinstance(n, ast.Assign) and len(n.targets) == 1 and isinstance(n.targets[0], ast.Name) and dotted(n.value) == "self.case._cleanups"}
-    pops = [c for c in walk_shallow(rcl, include_self=False) if isinstance(c, ast.Call) and isinstance(c.func, ast.Attribute) and c.func.attr == "pop" and dotted(c.func.value) in aliases]
-    got = None
-    if len(pops) != 1:
-        ctx.check("R-DRAIN-LIFO", f"{Q}._run_cleanups: pops from the live cleanup list", rcl, False,
-                  f"expected exactly one self.case._cleanups.pop() (the live list, so cleanups registered by cleanups are seen), found {len(pops)}", construct=f"{Q}._run_cleanups::drain-loop")
-    else:
-        p = pops[0]
-        lifo = not p.args or (len(p.args) == 1 and isinstance(p.args[0], ast.UnaryOp) and isinstance(p.args[0].op, ast.USub) and isinstance(p.args[0].operand, ast.Constant) and p.args[0].operand.value == 1)
-        ctx.check("R-DRAIN-LIFO", f"{Q}._run_cleanups: removes the last element", p, lifo,
-                  f"`{norm(p)}` does not remove the most recently registered cleanup (reverse registration order is lost)", construct=f"{Q}._run_cleanups::pop-last")
-        lp = p
-        while lp is not None and not isinstance(lp, (ast.While, ast.For)):
-            lp = getattr(lp, "_parent", None)
-        got = (lp if lp is not None else rcl, p)
-    if got:
-        lp, p = got
-        tgt = getattr(p, "_parent", None)
-        names = [dotted(e) for e in tgt.targets[0].elts] if isinstance(tgt, ast.Assign) and isinstance(tgt.targets[0], ast.Tuple) else []
-        ok, why = forwards_triple(ctx, lp, names, rt)
-        ctx.check("R-DRAIN-LIFO", "RunTest._run_cleanups hands each popped cleanup its args and kwargs", lp, ok,
-                  "the popped (function, arguments, keywordArguments) triple is not invoked as function(*arguments, **keywordArguments) "
-                  f"(directly, through _run_user or through a helper): {why}", construct=f"{Q}._run_cleanups::invoke-once")
-        for label, suffix, ok2, msg, r in runmodel.drain_verdicts(ctx, rt):
-            ctx.check("R-DRAIN-LIFO", label, rcl, ok2, msg, path=runmodel.fmt_log(r.state), construct=f"{Q}._run_cleanups::{suffix}")
-    acl = own_method(ctx, TWRUNTEST, "AsynchronousDeferredRunTest", "_run_cleanups")
-    ctx.analysed(acl)
-    got = check_drain_loop(ctx, acl, f"{TWRUNTEST}:AsynchronousDeferredRunTest._run_cleanups", "self.case._cleanups")
-    if got:
-        lp, p = got
-        tgt = getattr(p, "_parent", None)
-        names = [dotted(e) for e in tgt.targets[0].elts] if isinstance(tgt, ast.Assign) and isinstance(tgt.targets[0], ast.Tuple) else []
-        ok, why = forwards_triple(ctx, lp, names, classes.get(TWRUNTEST, "AsynchronousDeferredRunTest"))
-        yields = [y for y in walk_shallow(lp) if isinstance(y, ast.Yield)]
-        ctx.check("R-DRAIN-LIFO", "AsynchronousDeferredRunTest._run_cleanups invokes each popped cleanup once and waits for it", lp, ok and len(yields) == 1,
-                  f"the popped (f, args, kwargs) triple is not invoked once as f(*args, **kwargs) (directly, through maybeDeferred or a helper) and awaited with one yield: {why}",
-                  construct=f"{TWRUNTEST}:AsynchronousDeferredRunTest._run_cleanups::invoke-once")
 
-    # ------------------------------------------------------------------ reset completeness
-    tc = classes.get(TESTCASE, "TestCase")
-    reset = own_method(ctx, TESTCASE, "TestCase", "_reset")
-    reset_attrs = set()
-    for n in walk_shallow(reset, include_self=False):
-        if isinstance(n, ast.Assign):
-            for t in n.targets:
-                ch = attr_chain(t)
-                if ch and ch[0] == "self" and len(ch) == 2:
-                    reset_attrs.add(mangle("TestCase", ch[1]))
-    written = {}
-    MUT = {"append", "extend", "setdefault", "pop", "update", "add", "insert", "clear", "remove"}
-    for mname, f in tc.methods.items():
-        if mname in ("__init__", "_reset"):
-            continue
-        for n in walk_shallow(f, include_self=False):
-            attr = None
-            if isinstance(n, ast.Attribute) and isinstance(n.ctx, ast.Store):
-                ch = attr_chain(n)
-                if ch and ch[0] == "self" and len(ch) == 2:
-                    attr = ch[1]
-            elif isinstance(n, ast.Call) and isinstance(n.func, ast.Attribute) and n.func.attr in MUT:
-                ch = attr_chain(n.func.value)
-                if ch and ch[0] == "self" and len(ch) == 2:
-                    attr = ch[1]
-            elif isinstance(n, ast.Call) and dotted(n.func) == "next" and n.args:
-                ch = attr_chain(n.args[0])
-                if ch and ch[0] == "self" and len(ch) == 2:
-                    attr = ch[1]
-            elif isinstance(n, ast.Subscript) and isinstance(n.ctx, (ast.Store, ast.Del)):
-                ch = attr_chain(n.value)
-                if ch and ch[0] == "self" and len(ch) == 2:
-                    attr = ch[1]
-            if attr and attr.startswith("_") and not (attr.startswith("__") and attr.endswith("__")):
-                written.setdefault(mangle("TestCase", attr), (mname, n))
-    exempt = {
-        mangle("TestCase", "__exception_handlers"): "addOnException handlers are configuration that may be supplied before run(); resetting would discard it",
-        mangle("TestCase", "__RunTest"): "runner factory chosen at construction",
-        "_testMethodName": "unittest's own identity of the test",
+def check_stage_order(ctx, case):
+    Q = f"{TESTCASE}:TestCase.run"
+    quick = ctx.tier != "thorough"
+    for su in (None, "fail", "error", "skip", "interrupt"):
+        for te in ((None, "fail") if quick else (None, "fail", "skip", "interrupt")):
+            for td in ((None, "error") if quick else (None, "error", "interrupt")):
+                if su is not None and (te, td) != (None, None):
+                    continue   # (the test and tearDown do not run: nothing to vary)
+                script = {"setUp": [("call", "addCleanup", [cm.user("cleanup")], [])], "test": [], "tearDown": []}
+                for name, kind in (("setUp", su), ("test", te), ("tearDown", td)):
+                    if kind is not None:
+                        script[name].append(("raise", cm.raised(kind, name)))
+                d, runs = cm.run_case(ctx, script)
+                want = ["setUp"] + (["test", "tearDown"] if su is None else []) + ["cleanup"]
+                problems = set()
+                for r in runs:
+                    if _user(r) != want:
+                        problems.add(f"the user code called is {_user(r)}; expected {want}")
+                label = f"setUp {_w(su)}, test {_w(te)}, tearDown {_w(td)}"
+                ctx.check("R-STAGE-ORDER", f"[{label}] setUp, then test and tearDown iff setUp returned, then the cleanups", case.node, bool(runs) and not problems,
+                          "; ".join(sorted(problems)) or "no path of run() was followed to its end", examined=len(runs), construct=f"{Q}::stages {label}")
+    # the upcall checks: a setUp / tearDown that does not call the base class's is an error -- and the cleanups still run
+    for stage in ("setUp", "tearDown"):
+        script = {"setUp": [("call", "addCleanup", [cm.user("cleanup")], [])], "no_upcall_" + stage: True}
+        d, runs = cm.run_case(ctx, script)
+        want = ["setUp"] + (["test", "tearDown"] if stage == "tearDown" else []) + ["cleanup"]
+        problems = set()
+        for r in runs:
+            if _user(r) != want:
+                problems.add(f"the user code called is {_user(r)}; expected {want}")
+            if cm.outcomes(r) != ["addError"]:
+                problems.add(f"the outcomes are {cm.outcomes(r)}; expected one error (the missing upcall)")
+        ctx.check("R-STAGE-ORDER", f"a {stage} that does not upcall TestCase.{stage} is reported as an error; the later stages follow the same rule", case.node, bool(runs) and not problems,
+                  "; ".join(sorted(problems)) or "no path", examined=len(runs), construct=f"{Q}::upcall {stage}")
+    ctx.floor("R-STAGE-ORDER", 8, "stage outcome combinations")
+
+
+def _cleanup_script(su, te, td, raising):
+    """Cleanups registered by setUp, the test, tearDown, by the cleanup tearDown registered (it runs first) and by the
+    cleanup setUp registered (it runs last); ``raising``: cleanup name -> kind of exception."""
+    script = {
+        "setUp": [("call", "addCleanup", [cm.user("c_setup"), A1], [("key", K1)])],
+        "test": [("call", "addCleanup", [cm.user("c_test")], [])],
+        "tearDown": [("call", "addCleanup", [cm.user("c_teardown")], [])],
+        "c_teardown": [("call", "addCleanup", [cm.user("c_nested")], [])],
+        "c_setup": [("call", "addCleanup", [cm.user("c_late")], [])],
+        "c_test": [], "c_nested": [], "c_late": [],
     }
-    for attr, (mname, node) in sorted(written.items()):
-        if attr in exempt:
-            ctx.note(f"R-RESET-COMPLETE frozen exception: {attr} ({exempt[attr]})")
-            continue
-        ctx.check("R-RESET-COMPLETE", f"TestCase.{attr} (written by {mname}) is reset", reset, attr in reset_attrs,
-                  f"TestCase.{mname} changes self.{attr} during a run but _reset does not re-initialise it: a second run() of the same instance starts from stale state",
-                  construct=f"{TESTCASE}:TestCase._reset::{attr}")
-    ctx.floor("R-RESET-COMPLETE", 6, "per-run private attributes")
-    init = own_method(ctx, TESTCASE, "TestCase", "__init__")
-    ok = any(isinstance(c, ast.Call) and dotted(c.func) == "self._reset" for c in walk_shallow(init, include_self=False))
-    ctx.check("R-RESET-COMPLETE", "TestCase.__init__ initialises through _reset", init, ok, "constructor no longer calls _reset()", construct=f"{TESTCASE}:TestCase.__init__::reset")
-    run_f = own_method(ctx, TESTCASE, "TestCase", "run")
-    g = cfg_of(ctx, run_f)
-    lv = live_nodes(g)
-    resets = nodes_calling(g, lambda c: dotted(c.func) == "self._reset", lv)
-    runs = nodes_calling(g, lambda c: isinstance(c.func, ast.Attribute) and c.func.attr == "run" and dotted(c.func.value) != "self", lv)
-    ctx.check("R-RESET-COMPLETE", "TestCase.run resets before running", run_f, bool(resets) and bool(runs) and all(g.dominated_by(r, set(resets)) for r in runs),
-              "run() can start the runner without _reset()", construct=f"{TESTCASE}:TestCase.run::reset-dominates")
+    for name, kind in (("setUp", su), ("test", te), ("tearDown", td)):
+        if kind is not None:
+            script[name].append(("raise", cm.raised(kind, name)))
+    for name, kind in raising.items():
+        script[name].append(("raise", cm.raised(kind, name)))
+    return script
 
-    # ------------------------------------------------------------------ patch / fixture pairing
-    pf = own_method(ctx, TESTCASE, "TestCase", "patch")
-    ok = False
-    for n in walk_shallow(pf, include_self=False):
-        if isinstance(n, ast.Call) and dotted(n.func) == "self.addCleanup" and n.args and isinstance(n.args[0], ast.Call) and dotted(n.args[0].func) == "patch":
-            inner = n.args[0]
-            ok = [dotted(a) for a in inner.args] == [a.arg for a in pf.args.args[1:]]
-    ctx.check("R-PATCH-PAIR", "TestCase.patch registers the restore callable as a cleanup in the same statement", pf, ok,
-              "patch() applies the monkey patch without registering its undo action as a cleanup", construct=f"{TESTCASE}:TestCase.patch::register")
-    mp = module_function(ctx, MONKEY, "patch")
-    stmts = [norm(s) for s in mp.body if not (isinstance(s, ast.Expr) and isinstance(s.value, ast.Constant))]
-    ok = (len(stmts) == 3 and "MonkeyPatcher((" in stmts[0] and stmts[1].endswith(".patch()") and stmts[2].startswith("return ") and stmts[2].endswith(".restore"))
-    ctx.check("R-PATCH-PAIR", "monkey.patch applies the patch and returns the patcher's restore", mp, ok,
-              "monkey.patch no longer returns the restore method of the patcher it applied", construct=f"{MONKEY}:patch::shape")
+
+def _cleanup_scenarios(thorough):
+    stage_sets = [(None, None, None), (None, "fail", "error"), ("error", None, None), (None, "interrupt", None)]
+    if thorough:
+        stage_sets += [(None, "fail", None), (None, None, "error"), (None, "skip", "interrupt"), ("interrupt", None, None)]
+    out = []
+    for st in stage_sets:
+        out.append((st, {}))
+        singles = CLEANUPS if thorough else ("c_teardown", "c_test", "c_late")
+        for c in singles:
+            for kind in (("error", "interrupt") if thorough or st == stage_sets[1] else ("error",)):
+                out.append((st, {c: kind}))
+        out.append((st, {c: "error" for c in CLEANUPS}))
+        if thorough:
+            out.append((st, {"c_teardown": "interrupt", "c_nested": "fail", "c_setup": "error"}))
+            out.append((st, {c: "interrupt" for c in CLEANUPS}))
+    return out
+
+
+def check_cleanups(ctx, case):
+    Q = f"{TESTCASE}:TestCase.run"
+    for (su, te, td), raising in _cleanup_scenarios(ctx.tier == "thorough"):
+        d, runs = cm.run_case(ctx, _cleanup_script(su, te, td, raising))
+        if su is None:
+            want = ["c_teardown", "c_nested", "c_test", "c_setup", "c_late"]
+        else:
+            want = ["c_setup", "c_late"]
+        always, lifo = set(), set()
+        for r in runs:
+            called = [n for n in _user(r) if n.startswith("c_")]
+            if sorted(called) != sorted(want):
+                miss = [c for c in want if c not in called]
+                twice = sorted({c for c in called if called.count(c) > 1})
+                always.add(f"the cleanups called are {called}" + (f": {miss} never run" if miss else "") + (f": {twice} run more than once" if twice else ""))
+            elif called != want:
+                lifo.add(f"the cleanups run in the order {called}; expected {want} (reverse registration order, one registered by a cleanup next)")
+            stages = [n for n in _user(r) if not n.startswith("c_")]
+            if _user(r)[: len(stages)] != stages:
+                lifo.add(f"cleanups run before the stages are over: {_user(r)}")
+            for n, pos, kw in cm.events(r, ("user.c_setup",)):
+                if tuple(pos) != (A1,) or kw != {"key": K1}:
+                    lifo.add(f"the cleanup registered with addCleanup(f, arg, key=kwarg) is called with {tuple(pos)!r} {kw!r}")
+            left = _left(r)
+            if left != ("tuple",):
+                always.add(f"after run() the cleanups still registered are {left!r}")
+        label = f"setUp {_w(su)}, test {_w(te)}, tearDown {_w(td)}; raising cleanups: " + (", ".join(f"{c} {k}" for c, k in sorted(raising.items())) or "none")
+        ctx.check("R-CLEANUPS-ALWAYS", f"[{label}] every registered cleanup runs exactly once and none is left", case.node, bool(runs) and not always,
+                  "; ".join(sorted(always)) or "no path of run() was followed to its end", examined=len(runs), construct=f"{Q}::cleanups-run {label}")
+        ctx.check("R-DRAIN-LIFO", f"[{label}] cleanups run after the stages, last registered first, with their arguments", case.node, bool(runs) and not lifo,
+                  "; ".join(sorted(lifo)) or "no path", examined=len(runs), construct=f"{Q}::cleanups-order {label}")
+    ctx.floor("R-CLEANUPS-ALWAYS", 10, "cleanup scenarios")
+    # the Twisted runner has its own drain loop
+    from . import c14
+    f, problems, n = c14.run_cleanups_problems(ctx)
+    ctx.check("R-DRAIN-LIFO", "AsynchronousDeferredRunTest._run_cleanups runs every cleanup, last registered first, with its arguments, whatever the earlier ones raise, and leaves none", f,
+              not problems, "; ".join(sorted(problems)[:4]), examined=n, construct=f"{TWRUNTEST}:AsynchronousDeferredRunTest._run_cleanups::drain")
+
+
+def _history(r):
+    return [(n, pos, tuple(sorted(kw.items()))) for n, pos, kw in cm.events(r, ("result.", "user.", "patched."))]
+
+
+def check_rerun(ctx, case):
+    """The same program run twice on one instance: the same calls of user code, the same calls on the result with the
+    same arguments (outcome, details and their names), the same effects on patched objects -- twice."""
+    Q = f"{TESTCASE}:TestCase.run"
+    P, F = ("wobj", "patched"), ("wobj", "fixture")
+    detail = ("new", "Content", (("sym", "a-content-type"), ("sym", "a-byte-source")))
+    reg = ("call", "addCleanup", [cm.user("cleanup")], [])
+    programs = {
+        "passes": {"setUp": [reg], "test": []},
+        "fails with a detail": {"setUp": [reg], "test": [("call", "addDetail", [("const", "note"), detail], []), ("raise", cm.raised("fail", "test"))]},
+        "cleanup fails": {"setUp": [reg], "test": [], "cleanup": [("raise", cm.raised("error", "cleanup"))]},
+        "test and tearDown fail": {"test": [("raise", cm.raised("fail", "test"))], "tearDown": [("raise", cm.raised("error", "tearDown"))]},
+        "setUp fails": {"setUp": [reg, ("raise", cm.raised("error", "setUp"))]},
+        "skips": {"test": [("call", "skipTest", [("const", "not today")], [])]},
+        "patches": {"test": [("call", "patch", [P, ("const", "there"), ("sym", "patched-value")], []), ("call", "patch", [P, ("const", "absent"), ("sym", "patched-value")], [])]},
+        "uses a fixture": {"test": [("call", "useFixture", [F], []), ("raise", cm.raised("fail", "test"))]},
+        "forced failure": {"test": [("set", "force_failure", TRUE)]},
+    }
+    if ctx.tier != "thorough":
+        programs = {k: v for k, v in programs.items() if k in ("passes", "fails with a detail", "cleanup fails", "test and tearDown fail", "skips", "patches")}
+    for what, script in programs.items():
+        d, runs = cm.run_case(ctx, script, times=2, extra_attrs={"patched.there": ("sym", "original")}, lacks={("patched", "absent"), ("fixture", "_details")},
+                              answers={"fixture.getDetails": [("val", ("kwdict", ()))]})
+        problems = set()
+        for r in runs:
+            h = _history(r)
+            half = len(h) // 2
+            if len(h) % 2 or h[:half] != h[half:]:
+                diff = next((i for i in range(min(half, len(h) - half)) if h[i] != h[half + i]), None)
+                problems.add(f"the second run differs from the first: calls {[e[0] for e in h[:half]]} then {[e[0] for e in h[half:]]}" +
+                             (f"; first difference: {h[diff]!r} / {h[half + diff]!r}" if diff is not None else ""))
+            if r.kind != "val":
+                problems.add(f"run() raises {r.value!r}")
+        ctx.check("R-RESET-COMPLETE", f"[a test that {what}] run twice on one instance: the same calls, outcome and details twice", case.node, bool(runs) and not problems,
+                  "; ".join(sorted(problems))[:900] or "no path", examined=len(runs), construct=f"{Q}::rerun {what}")
+    ctx.floor("R-RESET-COMPLETE", 5, "rerun programs")
+
+
+def check_patch(ctx, case):
+    Q = f"{TESTCASE}:TestCase.patch"
+    P = ("wobj", "patched")
+    OLD, N1, N2, N3 = ("sym", "original"), ("sym", "new-1"), ("sym", "new-2"), ("sym", "new-3")
+    for te, cl in ((None, None), ("fail", None), ("interrupt", None), (None, "error"), ("fail", "error")):
+        script = {
+            "setUp": [("call", "addCleanup", [cm.user("cleanup")], [])],
+            "test": [("call", "patch", [P, ("const", "there"), N1], []), ("call", "patch", [P, ("const", "absent"), N2], []), ("call", "patch", [P, ("const", "there"), N3], []),
+                     ("call", "addCleanup", [cm.user("probe")], [])],
+            "cleanup": [], "probe": [],
+        }
+        if te:
+            script["test"].append(("raise", cm.raised(te, "test")))
+        if cl:
+            script["probe"].append(("raise", cm.raised(cl, "probe")))
+        d, runs = cm.run_case(ctx, script, extra_attrs={"patched.there": OLD}, lacks={("patched", "absent")}, snapshot_on=("user.probe", ("obj.patched.there", "obj.patched.absent")))
+        problems = set()
+        for r in runs:
+            there, absent = r.state.get("obj.patched.there", OLD), r.state.get("obj.patched.absent", None)
+            if there != OLD:
+                problems.add(f"after run() the attribute patched twice holds {there!r}; expected its pre-test value {OLD!r}")
+            if absent is not None and absent != so.DELETED:
+                problems.add(f"after run() the attribute that did not exist before the test holds {absent!r}; expected it to be absent again")
+            seen = [e for e in r.state.get("ev.snapshots", ())]
+            if seen != [("user.probe", (N3, N2))]:
+                problems.add(f"while the test's last cleanup runs the patched attributes hold {seen!r}; expected the patched values {(N3, N2)!r}")
+            if "cleanup" not in _user(r):
+                problems.add("the cleanup registered before the patches does not run")
+        label = f"test {_w(te)}, a cleanup {_w(cl)}"
+        ctx.check("R-PATCH-PAIR", f"[{label}] patch(): the new values hold during the test, the pre-test values (or absence) after run()", case.node, bool(runs) and not problems,
+                  "; ".join(sorted(problems)) or "no path", examined=len(runs), construct=f"{Q}::undo {label}")
     check_monkey_patcher(ctx)
-    uf = own_method(ctx, TESTCASE, "TestCase", "useFixture")
-    g = cfg_of(ctx, uf)
-    lv = live_nodes(g)
-    setup = nodes_calling(g, lambda c: dotted(c.func) == "fixture.setUp", lv)
-    reg1 = nodes_calling(g, lambda c: dotted(c.func) == "self.addCleanup" and c.args and dotted(c.args[0]) == "fixture.cleanUp", lv)
-    reg2 = nodes_calling(g, lambda c: dotted(c.func) == "self.addCleanup" and c.args and dotted(c.args[0]) == "gather_details", lv)
-    ok = len(setup) == 1 and len(reg1) == 1 and len(reg2) == 1
-    if ok:
-        esc = g.escape_path(g.after(setup[0]), set(reg1), targets=[g.exit_return])
-        esc2 = g.escape_path(g.after(setup[0]), set(reg2), targets=[g.exit_return])
-        ok = esc is None and esc2 is None and g.dominated_by(reg2[0], set(reg1))
-    ctx.check("R-PATCH-PAIR", "useFixture registers fixture.cleanUp and the details gatherer after a successful setUp", uf, ok,
-              "a fixture can be set up without its cleanUp / details gathering being registered as cleanups", construct=f"{TESTCASE}:TestCase.useFixture::register")
-    # failure arms gather details before re-raising, and always re-raise
-    handlers = [n for n in g.nodes if n.id in lv and n.kind == "handler"]
-    hn = [h.id for h in handlers]
-    esc = g.escape_path(hn, set(), targets=[g.exit_return]) if hn else [0]
-    ctx.check("R-PATCH-PAIR", "useFixture's failure arms always re-raise", uf, bool(hn) and esc is None,
-              "a failing fixture setUp can be swallowed by useFixture", path=g.describe_path(esc) if esc and hn else None, construct=f"{TESTCASE}:TestCase.useFixture::reraise")
-    gathers = [c for c in walk_shallow(uf, include_self=False) if isinstance(c, ast.Call) and dotted(c.func) == "gather_details"]
-    in_handlers = [c for c in gathers if any(isinstance(p, ast.ExceptHandler) for p in _ancestors(c, uf))]
-    ctx.check("R-PATCH-PAIR", "useFixture gathers the fixture's details when setUp fails", uf, len(in_handlers) >= 2,
-              "details of a fixture whose setUp failed are no longer gathered", construct=f"{TESTCASE}:TestCase.useFixture::gather-on-failure")
-
-    # ------------------------------------------------------------------ call shape (receiver-sensitive CHA)
-    n_sites = check_call_shapes(ctx)
-    ctx.floor("R-CALL-SHAPE", 150, "resolved self/super call sites")
-    ctx.assume("unittest.TestCase.doCleanups is not used: testtools keeps its own _cleanups list")
-
-
-class _MonkeyDomain(DefaultDomain):
-    """MonkeyPatcher.patch / restore over one requested patch (obj, name, new) whose attribute either
-    exists (value `orig`) or does not; the saved-originals list is a bounded tuple of abstract entries;
-    setattr / delattr on the patched object are logged."""
-
-    def __init__(self, present):
-        self.present = present
-
-    def load_attr(self, chain, st, fr):
-        if chain == ["self", "_originals"]:
-            return NONEMPTY if st.get("orig", ()) else EMPTY
-        if chain == ["self", "_patches_to_apply"]:
-            return ("patches",)
-        if chain[:1] == ["self"] and len(chain) == 2 and chain[1].isupper():
-            return ("const", chain[1])
-        return None
-
-    def iter_kind(self, value):
-        return "nonempty" if value == ("patches",) else super().iter_kind(value)
-
-    def for_step(self, interp, stmt, itervalue, st, fr, first):
-        if itervalue == ("patches",):
-            return (True, False) if first else (False, True)
-        return None
-
-    def element(self, itervalue, st, node):
-        if itervalue == ("patches",):
-            return ("tuple", ("const", "obj"), ("const", "name"), ("const", "new"))
-        return TOP
-
-    def call(self, interp, call, st, fr):
-        d = dotted(call.func)
-        out = []
-        for r in interp.eval_list([a for a in call.args if not isinstance(a, ast.Starred)], st, fr):
-            if r.kind == "exc":
-                out.append(r)
-                continue
-            v, s_ = r.value, r.state
-            log = s_.get("log", ())
-            if d == "getattr" and len(v) >= 2 and v[0] == ("const", "obj"):
-                got = ("const", "orig") if self.present else (v[2] if len(v) > 2 else None)
-                if got is None:
-                    out.append(exc(("framework", "AttributeError"), s_))
-                else:
-                    out.append(val(got, s_.set("log", log + (("read",),))))
-            elif d == "hasattr" and len(v) == 2 and v[0] == ("const", "obj"):
-                out.append(val(TRUE if self.present else FALSE, s_.set("log", log + (("read",),))))
-            elif d == "setattr" and len(v) == 3 and v[0] == ("const", "obj") and v[1] == ("const", "name"):
-                out.append(val(NONE, s_.set("log", log + (("set", v[2]),))))
-            elif d == "delattr" and len(v) == 2 and v[0] == ("const", "obj") and v[1] == ("const", "name"):
-                out.append(val(NONE, s_.set("log", log + (("del",),))))
-            elif d == "self._originals.append" and len(v) == 1:
-                out.append(val(NONE, s_.set("orig", s_.get("orig", ()) + (v[0],))))
-            elif d == "self._originals.pop":
-                cur = s_.get("orig", ())
-                idx_last = not v or v[0] == ("const", -1)
-                if not cur:
-                    out.append(exc(("framework", "IndexError"), s_))
-                else:
-                    out.append(val(cur[-1] if idx_last else cur[0], s_.set("orig", cur[:-1] if idx_last else cur[1:])))
-            else:
-                out.append(val(TOP, s_))
-        return out
-
-    def constant(self, node):
-        return ("const", node.value)
-
-    def truth(self, value):
-        if isinstance(value, tuple) and len(value) == 2 and value[0] == "const" and not isinstance(value[1], str):
-            return "T" if value[1] else "F"
-        if isinstance(value, tuple) and len(value) == 2 and value[0] == "const":
-            return "T" if value[1] else "F"
-        return super().truth(value)
-
-    def is_none(self, value):
-        if isinstance(value, tuple) and len(value) == 2 and value[0] == "const":
-            return "T" if value[1] is None else "F"
-        return super().is_none(value)
 
 
 def check_monkey_patcher(ctx):
     mp_cls = ctx.classes.get(MONKEY, "MonkeyPatcher")
-    for present in (True, False):
-        dom = _MonkeyDomain(present)
-
-        def go(name, st):
-            owner, f = ctx.classes.resolve_method(mp_cls, name)
-            if not isinstance(f, FUNC_TYPES):
-                raise AnalysisError(f"anchor vanished: MonkeyPatcher.{name}")
-            it = Interp(dom, max_depth=3)
-            res = it.analyze(f, {}, st, receiver=mp_cls, name=name)
-            ctx.stats["states"] += it.steps
-            ctx.analysed(f)
-            return res
-
-        finals = []
-        for r1 in go("patch", State([("orig", ()), ("log", ())])):
-            if r1.kind != "val":
-                finals.append(("patch raises", r1.state))
-                continue
-            s1 = State([(k, v) for k, v in r1.state.items if k in ("orig", "log")])
-            for r2 in go("restore", s1):
-                finals.append(("ok" if r2.kind == "val" else "restore raises", r2.state))
-        want = (("read",), ("set", ("const", "new")), ("set", ("const", "orig"))) if present else (("read",), ("set", ("const", "new")), ("del",))
-        problems = []
-        for how, s_ in finals:
-            log = s_.get("log", ())
-            if how != "ok":
-                problems.append(how)
-            elif log != want:
-                problems.append("patch(); restore() does " + " ".join(("read-original" if e[0] == "read" else f"setattr({e[1][1]})" if e[0] == "set" else "delattr") for e in log))
-            elif s_.get("orig", ()):
-                problems.append("restore() leaves saved originals behind")
-        what = "an attribute that existed gets its original value back" if present else "an attribute that did not exist is deleted again"
-        ctx.check("R-PATCH-PAIR", f"MonkeyPatcher patch(); restore(): the original is read before it is overwritten, and {what}", mp_cls.node, bool(finals) and not problems,
-                  "; ".join(sorted(set(problems))) or "no path explored", examined=len(finals), construct=f"{MONKEY}:MonkeyPatcher::roundtrip present={present}")
-    mr = own_method(ctx, MONKEY, "MonkeyPatcher", "restore")
-    pops = [c for c in walk_shallow(mr, include_self=False) if isinstance(c, ast.Call) and dotted(c.func) == "self._originals.pop"]
-    lifo = len(pops) == 1 and (not pops[0].args or norm(pops[0].args[0]) == "-1")
-    ctx.check("R-PATCH-PAIR", "MonkeyPatcher.restore undoes the patches last-first", mr, lifo,
-              "restore does not pop the most recently saved original first (an attribute patched twice would end with the first patch's value)", construct=f"{MONKEY}:MonkeyPatcher.restore::pop-last")
+    if mp_cls is None:
+        raise AnalysisError("anchor vanished: testtools.monkey.MonkeyPatcher")
+    P = ("wobj", "patched")
+    OLD, N1, N2, N3 = ("sym", "original"), ("sym", "new-1"), ("sym", "new-2"), ("sym", "new-3")
+    dom = so.StreamDomain(ctx.classes, accepting=("patched",), attrs={"self": ("self",), "patched.there": OLD}, lacks={("patched", "absent")})
+    d = so.Driver(ctx, mp_cls, dom)
+    runs = d.construct([("tuple", P, ("const", "there"), N1), ("tuple", P, ("const", "absent"), N2)])
+    runs = d.call(runs, "add_patch", [P, ("const", "there"), N3])
+    mid = d.call(runs, "patch")
+    end = d.call(mid, "restore")
+    again = d.call(end, "restore")
+    d.done()
+    problems = set()
+    for r in mid:
+        if r.kind != "val" or (r.state.get("obj.patched.there"), r.state.get("obj.patched.absent")) != (N3, N2):
+            problems.add(f"after patch() the attributes hold {(r.state.get('obj.patched.there'), r.state.get('obj.patched.absent'))!r}; expected the last value given for each, {(N3, N2)!r}")
+    for which, rs in (("restore()", end), ("a second restore()", again)):
+        for r in rs:
+            if r.kind != "val":
+                problems.add(f"{which} raises {r.value!r}")
+            elif r.state.get("obj.patched.there", OLD) != OLD or r.state.get("obj.patched.absent", so.DELETED) != so.DELETED:
+                problems.add(f"after {which} the attributes hold {(r.state.get('obj.patched.there'), r.state.get('obj.patched.absent'))!r}; expected the original value and absence")
+    ctx.check("R-PATCH-PAIR", "MonkeyPatcher: patch() sets every attribute, restore() brings back the original value of one patched twice and removes one that did not exist", mp_cls.node,
+              bool(mid) and bool(end) and not problems, "; ".join(sorted(problems)) or "no path", examined=len(end), construct=f"{MONKEY}:MonkeyPatcher::roundtrip")
 
 
-INVOKERS = {"self._run_user", "defer.maybeDeferred", "maybeDeferred"}
+def check_fixture(ctx, case):
+    Q = f"{TESTCASE}:TestCase.useFixture"
+    F = ("wobj", "fixture")
+    base = {"fixture.getDetails": [("val", ("kwdict", ()))]}
+    for te in (None, "fail", "interrupt"):
+        script = {"setUp": [("call", "addCleanup", [cm.user("c_before")], [])],
+                  "test": [("call", "useFixture", [F], []), ("call", "addCleanup", [cm.user("c_after")], [])] + ([("raise", cm.raised(te, "test"))] if te else []),
+                  "c_before": [], "c_after": []}
+        d, runs = cm.run_case(ctx, script, answers=base, lacks={("fixture", "_details")})
+        problems = set()
+        for r in runs:
+            seq = [n for n in cm.names(r, ("user.", "fixture.")) if n in ("fixture.setUp", "fixture.cleanUp") or n.startswith("user.c_") or n in ("user.test", "user.tearDown")]
+            want = ["user.test", "fixture.setUp", "user.tearDown", "user.c_after", "fixture.cleanUp", "user.c_before"]
+            if seq != want:
+                problems.add(f"the calls are {seq}; expected {want} (the fixture is set up when used and cleaned up once, in its place among the cleanups)")
+        ctx.check("R-PATCH-PAIR", f"[test {_w(te)}] useFixture sets the fixture up and registers its cleanUp as a cleanup", case.node, bool(runs) and not problems,
+                  "; ".join(sorted(problems)) or "no path", examined=len(runs), construct=f"{Q}::cleanup test {_w(te)}")
+    # a fixture whose setUp fails: the failure is the test's, nothing is registered for it
+    answers = dict(base)
+    answers["fixture.setUp"] = [("exc", ("exc", "RuntimeError", "fixture"))]
+    script = {"test": [("call", "useFixture", [F], []), ("call", "addCleanup", [cm.user("c_after")], [])], "c_after": []}
+    d, runs = cm.run_case(ctx, script, answers=answers, lacks={("fixture", "_details")})
+    problems = set()
+    for r in runs:
+        if cm.outcomes(r) != ["addError"]:
+            problems.add(f"the outcomes are {cm.outcomes(r)}; expected the fixture's error")
+        if "fixture.cleanUp" in cm.names(r, ("fixture.",)) or "user.c_after" in cm.names(r):
+            problems.add("the test goes on after useFixture failed, or cleanUp of the fixture that was never set up is called")
+        if "user.tearDown" not in cm.names(r):
+            problems.add("tearDown does not run")
+    ctx.check("R-PATCH-PAIR", "a fixture whose setUp raises: the exception leaves useFixture (the test errors), cleanUp is not registered", case.node, bool(runs) and not problems,
+              "; ".join(sorted(problems)) or "no path", examined=len(runs), construct=f"{Q}::setup-fails")
 
 
-def _invokes(call, f, a, k):
-    """Is call `f(*a, **k)`, or `<invoker>(f, *a, **k)`?"""
-    star = any(isinstance(x, ast.Starred) and dotted(x.value) == a for x in call.args)
-    kw = any(x.arg is None and dotted(x.value) == k for x in call.keywords)
-    if not (star and kw):
-        return False
-    if dotted(call.func) == f:
-        return True
-    return dotted(call.func) in INVOKERS and bool(call.args) and dotted(call.args[0]) == f
-
-
-def forwards_triple(ctx, loop, names, receiver):
-    """The three names bound from the popped entry reach exactly one invocation per iteration: in the
-    loop body itself, or in a helper method that receives them (in order) and invokes them."""
-    if len(names) != 3:
-        return False, "the popped entry is not unpacked into (function, args, kwargs)"
-    f, a, k = names
-    direct = [c for c in walk_shallow(loop) if isinstance(c, ast.Call) and _invokes(c, f, a, k)]
-    if len(direct) == 1:
-        return True, ""
-    if len(direct) > 1:
-        return False, "the cleanup is invoked more than once per iteration"
-    via = []
-    for c in walk_shallow(loop):
-        ch = attr_chain(c.func) if isinstance(c, ast.Call) else None
-        if ch and ch[0] == "self" and len(ch) == 2 and [dotted(x) for x in c.args] == [f, a, k] and not c.keywords:
-            owner, h = ctx.classes.resolve_method(receiver, ch[1])
-            if isinstance(h, FUNC_TYPES):
-                ps = [p.arg for p in h.args.args][1:]
-                inner = [x for x in walk_shallow(h, include_self=False) if isinstance(x, ast.Call) and len(ps) == 3 and _invokes(x, *ps)]
-                if len(inner) == 1:
-                    ctx.analysed(h)
-                    via.append(c)
-    if len(via) == 1:
-        return True, ""
-    return False, "no call of the form f(*args, **kwargs) on the popped names was found"
-
-
-def _ancestors(node, stop):
-    out = []
-    n = getattr(node, "_parent", None)
-    while n is not None and n is not stop:
-        out.append(n)
-        n = getattr(n, "_parent", None)
-    return out
+def run(ctx):
+    ctx.rule("R-STAGE-ORDER", "setUp first; test and tearDown iff setUp returned normally; cleanups after them")
+    ctx.rule("R-CLEANUPS-ALWAYS", "every registered cleanup runs exactly once whatever stages and cleanups raise; none is left registered")
+    ctx.rule("R-DRAIN-LIFO", "cleanups run after the stages in reverse registration order (one registered by a cleanup next), with their arguments")
+    ctx.rule("R-RESET-COMPLETE", "a second run() of the same instance starts from the state of a fresh one")
+    ctx.rule("R-PATCH-PAIR", "patch / useFixture are undone by the cleanups: patched attributes get their pre-test value or absence back, fixtures are cleaned up")
+    ctx.rule("R-CALL-SHAPE", "self/super call shapes are accepted by the resolved callee for every possible receiver class")
+    case = cm.case_class(ctx)
+    check_stage_order(ctx, case)
+    check_cleanups(ctx, case)
+    check_rerun(ctx, case)
+    check_patch(ctx, case)
+    check_fixture(ctx, case)
+    check_call_shapes(ctx)
+    ctx.floor("R-CALL-SHAPE", 150, "resolved self/super call sites")
 
 
 def call_shape_problem(call, callee, bound, enclosing):
